@@ -24,3 +24,16 @@ func zzExpireDeadlines() {
 }
 
 func zzArmShortDeadlines() {}
+
+func zzArmMixedDeadlines() {}
+
+// zzExpireFirstDeadline fires only the deadline that was armed first.
+func zzExpireFirstDeadline() {
+	if len(zzTimers) > 0 {
+		select {
+		case zzTimers[0] <- time.Time{}:
+		default:
+		}
+	}
+	zzSettle()
+}
